@@ -1,4 +1,5 @@
 import Driver.Common
+import Driver.C06
 import MocVerif.Model.MocSet
 import MocVerif.Model.MocSetCrash
 
@@ -65,6 +66,19 @@ def stepMocSet (toks : List String) : Option String :=
     let ids := msQuery { n128 := 1, entries := es } region (inc == "1") (dep == "1")
     let ids := ids.mergeSort
     pure (showNats ids)
+  | ["mqp", es, dep, idx] => do
+    let es ← parseEntries es; let idx ← idx.toNat?
+    let ids := (msQueryPos { n128 := 1, entries := es } idx (dep == "1")).mergeSort
+    pure (showNats ids)
+  | ["mu", es, inc, dep, region, depth] => do
+    let es ← parseEntries es; let region ← parseRngs region; let depth ← depth.toNat?
+    pure (showMoc depth (msUnionQuery { n128 := 1, entries := es } region (inc == "1") (dep == "1") (2 * (29 - depth))))
+  | ["mup", es, dep, idx, depth] => do
+    let es ← parseEntries es; let idx ← idx.toNat?; let depth ← depth.toNat?
+    pure (showMoc depth (msUnionPos { n128 := 1, entries := es } idx (dep == "1") (2 * (29 - depth))))
+  | ["mui", es, ids, depth] => do
+    let es ← parseEntries es; let ids ← parseNats ids; let depth ← depth.toNat?
+    pure (showMoc depth (msUnionIds { n128 := 1, entries := es } ids (2 * (29 - depth))))
   | _ => none
 
 end Drv
